@@ -192,10 +192,10 @@ class Skel:
             if all(v is False for v in vs):
                 return False
             return U
-        if name in ('iadd', 'isub', 'imul'):
+        if name in ('iadd', 'isub', 'imul', 'imin', 'imax'):
             a, b = self.ev(args[0]), self.ev(args[1])
             if isinstance(a, int) and isinstance(b, int) and not isinstance(a, bool):
-                r = {'iadd': a + b, 'isub': a - b, 'imul': a * b}[name]
+                r = {'iadd': a + b, 'isub': a - b, 'imul': a * b, 'imin': min(a, b), 'imax': max(a, b)}[name]
                 return r
             return U
         if name in ('eq', 'ne', 'lt', 'le', 'gt', 'ge'):
